@@ -20,6 +20,19 @@ theorem optimize_preserves (tfhd : Tfhd) (trex : Trex) (t : Trun) (h : t.Fresh) 
     (ho : optimize tfhd t = some (tfhd', t')) : readBack tfhd' trex t' = t.samples :=
   Frag.optimize_preserves tfhd trex t h tfhd' t' ho
 
+/-- **optimisation is idempotent**: running `OptimizeTfhdTrun` again over an already optimised run and tfhd (the same
+    fragment encoded a second time, by either encoder, or optimised by the caller before encoding) changes nothing —
+    in particular `first_sample_flags` survives; holds for every run, fresh or not -/
+theorem optimize_idem (tfhd : Tfhd) (t : Trun) (tfhd' : Tfhd) (t' : Trun)
+    (ho : optimize tfhd t = some (tfhd', t')) : optimize tfhd' t' = some (tfhd', t') :=
+  Frag.optimize_idem tfhd t tfhd' t' ho
+
+/-- **optimised any number of times** a run created by the fragment builder still resolves to exactly the samples
+    added: every output of a fragment that is encoded repeatedly reads back the same -/
+theorem optimizeN_preserves (n : Nat) (tfhd : Tfhd) (trex : Trex) (t : Trun) (h : t.Fresh) (tfhd' : Tfhd) (t' : Trun)
+    (ho : optimizeN n tfhd t = some (tfhd', t')) : readBack tfhd' trex t' = t.samples :=
+  Frag.optimizeN_preserves n tfhd trex t h tfhd' t' ho
+
 /-- optimisation never touches the stored samples and fails only on an empty run -/
 theorem optimize_samples (tfhd : Tfhd) (t : Trun) :
     (t.samples = [] → optimize tfhd t = none) ∧
